@@ -18,6 +18,7 @@ from .. import core, tlaval
 from ..core import Check, MachineryError, run_tlc, scratch, PY, VERIF
 
 NCASE = 8
+MODEL_KIND = {"grid3": "tuple"}      # the 12-case grid gives its must_include values as a tuple: the model's kind is that of the header parser
 WORKER_EVS = ["WLog", "WMkDir", "WExec", "WMarker", "WLogOk", "WResBegin", "WResEnd", "WErr"]
 ACT2EV = {"PHeaderEnd": "HeaderEnd", "PParse": "ParseOk", "PScan": "Scan", "PPoolDone": "PoolDone", "PLoad": "Load",
           "PStartFresh": "HeaderBegin"}
@@ -56,7 +57,7 @@ def scenarios_systematic(tier, rng):
     def add(kills, fail, kind, p, incs=None, pool="pathos", extra_inc=0, fail_by_inc=None):
         nonlocal n
         n += 1
-        delays = {str(c): rng.choice([0, 0, 1, 3, 8, 15]) for c in range(NCASE)}
+        delays = {str(c): rng.choice([0, 0, 1, 3, 8, 15]) for c in range(12 if kind == "grid3" else NCASE)}
         sc = {"id": "s%04d" % n, "fail": fail, "kind": kind, "procs": p, "pool": pool, "kills": kills,
               "incs": incs or (len(kills) + 1 + extra_inc), "delays": delays, "origin": "systematic"}
         if fail_by_inc:
@@ -73,6 +74,17 @@ def scenarios_systematic(tier, rng):
             f2 = sorted(rng.sample(f1, rng.randint(0, len(f1) - 1))) if len(f1) > 1 else []
             kills = [{"inc": 2, "ev": rng.choice(["WMarker", "WResEnd", "WErr", "WExec"]), "c": rng.choice(f1)}] if k % 2 else []
             add(kills, f1, kinds[k % 3], procs[k % 3], fail_by_inc=[f1, f2, [], [], []])
+    # a three-dimensional grid with 12 cases (case numbers 10 and 11 have a one-digit prefix): failing subsets, then restarts; a kill;
+    # a completed study started again; an interruption after the last case (parent killed when the pool is done)
+    g3 = [[[1], []], [[1, 2], [2], []], [[0], []], [[3, 7], []], [[11], [], []], [[10, 4], []], [[1, 10, 11], [1], []], [[], [], []]]
+    if tier == "thorough":
+        g3 += [[sorted(rng.sample(range(12), rng.randint(1, 5))), [], []] for _ in range(10)]
+    for j, fbi in enumerate(g3):
+        add([], fbi[0], "grid3", procs[j % 3], fail_by_inc=fbi)
+    add([{"inc": 1, "ev": "WMarker", "c": 1}], [], "grid3", 4, extra_inc=1)
+    add([{"inc": 1, "ev": "WResEnd", "c": 10}], [2], "grid3", 8, extra_inc=1)
+    add([{"inc": 1, "ev": "PoolDone", "c": None}], [], "grid3", 4, extra_inc=1)
+    add([{"inc": 1, "ev": "PoolDone", "c": None}, {"inc": 2, "ev": "Load", "c": 11}], [], "grid3", 4, extra_inc=1)
     # single kill after every worker step of a few / all cases
     cases = [0, 3, 7] if tier == "quick" else list(range(NCASE))
     i = 0
@@ -193,6 +205,7 @@ def direct_clauses(t):
     out = []
     ev = t["events"]
     fail = set(t["fail"])
+    NCASE = t.get("ncase", 8)            # the 4 x 2 grids have 8 cases, the three-dimensional grid 12 (two-digit case numbers)
     base = {"kind": t["kind"], "pool": t.get("pool", "pathos")}
     # the restarted study works on the grid of the original study
     ph = sorted({e["c"] for e in ev if isinstance(e.get("c"), int) and not (0 <= e["c"] < NCASE)})
@@ -277,7 +290,7 @@ def validate_traces(ck, traces, cfg="MPStudyTrace_fixed.cfg", label="repaired"):
         rounds += 1
         wd = scratch("c18val")
         tf = os.path.join(wd, "traces.json")
-        json.dump([{"fail": traces[i]["fail"], "fail_by_inc": fail_by_inc(traces[i]), "kind": traces[i]["kind"], "events": traces[i]["events"]} for i in todo],
+        json.dump([{"fail": traces[i]["fail"], "fail_by_inc": fail_by_inc(traces[i]), "kind": MODEL_KIND.get(traces[i]["kind"], traces[i]["kind"]), "events": traces[i]["events"]} for i in todo],
                   open(tf, "w"))
         r = run_tlc("MC_MPStudyTrace", cfg, workdir=wd, workers=1, expect_violation=True, timeout=1800,
                     env={"TRACE_FILE": tf})
@@ -432,10 +445,13 @@ def run(tier, seed):
     ck.notes["real_runs_wall_s"] = round(time.time() - t0, 1)
     ck.notes["real_incarnations"] = sum(len(t["statuses"]) for t in traces)
     ck.notes["real_sigkills"] = sum(t["statuses"].count("killed") for t in traces)
-    off_grid = {i for i, t in enumerate(traces) if any(isinstance(e.get("c"), int) and not (0 <= e["c"] < NCASE) for e in t["events"])}
-    verd = validate_traces(ck, [t for i, t in enumerate(traces) if i not in off_grid])
-    keep = [i for i in range(len(traces)) if i not in off_grid]
-    verd = {keep[k]: v for k, v in verd.items()}
+    off_grid = {i for i, t in enumerate(traces) if any(isinstance(e.get("c"), int) and not (0 <= e["c"] < t.get("ncase", NCASE)) for e in t["events"])}
+    verd = {}
+    for nc, cfg in ((8, "MPStudyTrace_fixed.cfg"), (12, "MPStudyTrace_fixed12.cfg")):
+        keep = [i for i, t in enumerate(traces) if i not in off_grid and t.get("ncase", NCASE) == nc]
+        if keep:
+            vd = validate_traces(ck, [traces[i] for i in keep], cfg=cfg, label="repaired, %d cases" % nc)
+            verd.update({keep[k]: v for k, v in vd.items()})
     for i in off_grid:
         verd[i] = {"accepted": False, "at": 0, "len": len(traces[i]["events"]) + 1, "off_grid": True}
     nacc = 0
@@ -475,7 +491,9 @@ def run(tier, seed):
     ck.notes["traces_accepted"] = nacc
     study_dirs_extension(ck, tier, seed)
     # binding self-test: a corrupted trace must be rejected
-    good = [i for i, t in enumerate(traces) if verd[i]["accepted"] and any(e["ev"] == "Crash" for e in t["events"])]
+    good = [i for i, t in enumerate(traces) if verd[i]["accepted"] and t.get("ncase", NCASE) == NCASE and any(e["ev"] == "Crash" for e in t["events"])
+            and any(e["ev"] == "WMkDir" and any(f["ev"] == "WExec" and f.get("c") == e.get("c") and f["inc"] == e["inc"] for f in t["events"][j + 1:])
+                    for j, e in enumerate(t["events"]))]
     if good:
         t = copy.deepcopy(traces[good[0]])
         for e in t["events"]:
@@ -483,7 +501,13 @@ def run(tier, seed):
                 e["marker"][0] = not e["marker"][0]
                 break
         t2 = copy.deepcopy(traces[good[0]])
-        k = next(i for i, e in enumerate(t2["events"]) if e["ev"] == "WMkDir")
+        # drop a directory creation that the same incarnation provably went past (the case was executed afterwards): a WMkDir right
+        # before a kill is indistinguishable from a step that was never logged and is legitimately inferred by the trace spec
+        ev2 = t2["events"]
+        k = next((i for i, e in enumerate(ev2) if e["ev"] == "WMkDir" and any(
+            f["ev"] == "WExec" and f.get("c") == e.get("c") and f["inc"] == e["inc"] for f in ev2[i + 1:])), None)
+        if k is None:
+            k = next(i for i, e in enumerate(ev2) if e["ev"] == "WExec")
         del t2["events"][k]
         t3 = copy.deepcopy(traces[good[0]])
         for e in t3["events"]:
@@ -500,7 +524,7 @@ def run(tier, seed):
                       "simulation behaviours; distinct_nontrivial counts distinct scenarios with at least one SIGKILL or failing case")
     ck.cov["exhaustive"] = False
     ck.assumptions += ["SIGKILL of the whole process group models 'process killed'; a kill inside np.savez is emulated by a truncated "
-                       "archive that exists before the real write", "grid 4x2 cases, must_include values in exponent notation / negative; pool sizes 4/8/16; pathos pool (the stdlib-pool fallback cannot pickle the local worker closure at all - it never runs a study, interrupted or not - and is outside this check)",
+                       "archive that exists before the real write", "grid 4x2 cases (must_include values in exponent notation / negative) and a 3x2x2 grid with 12 cases; pool sizes 4/8/16; pathos pool (the stdlib-pool fallback cannot pickle the local worker closure at all - it never runs a study, interrupted or not - and is outside this check)",
                        "file-operation proxies are injected into the module namespace at run time (no change to /repo)"]
     return ck.finish()
 
